@@ -619,6 +619,6 @@ pub fn run(tier: Tier) -> i32 {
 }
 
 pub fn replay(v: &Value) -> i32 {
-    println!("REPLAY: C14 case {} {} — re-run ./check C14 (deterministic enumeration)", v["replay"]["mode"], v["replay"]["filter"]);
-    2
+    // the cases of this check are enumerated, not stored: re-run the deterministic enumeration for the signature
+    fp_harness::report::replay_by_rerun(v, &|tier| run(tier))
 }
